@@ -350,6 +350,29 @@ def run_case(case):
                 ctx = {k: v for k, v in ctx.items() if not isinstance(v, FnVal)} or {"tenant": 1}
             fam_id = "%d/%d/%d" % (case["seed"], case["idx"], fam)
             check_family(out, fail, rng, sig, fn, values, [n for n in values if n not in extras], extras, ctx, fam_id, REC, seen)
+        # every function is defined again in the running process with another parameter list (the module is edited and
+        # re-loaded): positional arguments bind to the parameters of the current definition
+        if case["idx"] % 2 == 0:
+            sigs2 = [gen_signature(rng, sg["name"]) for sg in sigs]
+            with open(sc.path(modname + ".py"), "w") as f:
+                f.write(render(sigs2))
+            importlib.invalidate_caches()
+            mod = importlib.reload(mod)
+            out["obs"]["modules_redefined_in_process"] += 1
+            for fam in range(min(6, case["families"])):
+                sig = rng.choice(sigs2)
+                fn = getattr(mod, sig["name"])
+                values = {}
+                for n, has, d in sig["pos"] + sig["kwo"]:
+                    if not has or rng.random() < 0.5:
+                        values[n] = gen_value(rng)
+                extras = []
+                if sig["varkw"]:
+                    for n in rng.sample(["extra", "z9", "p9"], rng.randint(0, 2)):
+                        values[n] = gen_value(rng)
+                        extras.append(n)
+                fam_id = "%d/%d/redefined-%d" % (case["seed"], case["idx"], fam)
+                check_family(out, fail, rng, sig, fn, values, [n for n in values if n not in extras], extras, None, fam_id, REC, seen)
         # the keys of calls seen above, computed again by four threads at once (with frequent thread switches): every
         # key must be the one computed alone
         if CALLS:
